@@ -448,7 +448,9 @@ def run_shard(ctx):
     while k < n_models and (ctx.time_left() > 0 or len(ctx.fingerprints) < min_d):
         k += 1
         try:
-            case = bc.make_case(ctx, max_classes=3, max_fields=4, n_objs=1, max_depth=2)
+            # every fifth model is drawn from a narrow feature set in which wildcards (holding generic trees and known global elements) are frequent
+            feats = {"wildcard", "namespaces", "attribute", "attributes", "list", "inheritance", "nillable", "object", "meta_name"} if k % 5 == 0 else None
+            case = bc.make_case(ctx, features=feats, boost=("wildcard",) if feats else (), max_classes=3, max_fields=4, n_objs=1, max_depth=2)
         except Exception as e:  # noqa: BLE001
             ctx.inconc(f"model generation failed: {e}")
             continue
